@@ -1021,6 +1021,7 @@ func runC11(r *Run) {
 			}
 		}
 	}
+	c11GCDuringDecode(r)
 	rng := r.Rng
 	maskOK := c11MaskSelfTest()
 	if !maskOK {
